@@ -119,11 +119,11 @@ GHOST = '''
 
 SETS0 = 'old(self).annotationsets@'
 SETS1 = 'final(self).annotationsets@'
-DEN = "bi_denotes::<AnnotationDataSet>(dataitem.dataset, Some(old(self).dataset_idmap.data@), old(self).dataset_idmap.resolve_temp_ids)"
+DEN = "bi_denotes::<AnnotationDataSet>(dataitem.dataset, old(self).annotationsets@, Some(old(self).dataset_idmap.data@), old(self).dataset_idmap.resolve_temp_ids)"
 HIT = f"({DEN} is Some && live({SETS0}, {DEN}.unwrap() as int))"
 # the name a dataset created on the fly gets: the requested id, or the default name when the request carries none
 NAME = "(match dataitem.dataset { BuildItem::Id(s) => s@, BuildItem::IdRef(s) => s@, _ => \"default-annotationset\"@ })"
-BYNAME = f"resolves_to::<AnnotationDataSet>(old(self).dataset_idmap.data@, old(self).dataset_idmap.resolve_temp_ids, {NAME})"
+BYNAME = f"resolves_to::<AnnotationDataSet>({SETS0}, old(self).dataset_idmap.data@, old(self).dataset_idmap.resolve_temp_ids, {NAME})"
 NAMEHIT = f"({BYNAME} is Some && live({SETS0}, {BYNAME}.unwrap() as int))"
 # the dataset the data item goes into
 TARGET = f"(if {HIT} {{ {DEN}.unwrap() as int }} else if {NAMEHIT} {{ {BYNAME}.unwrap() as int }} else {{ {SETS0}.len() as int }})"
